@@ -141,7 +141,13 @@ func (portHistWorld) Gen(seed uint64, tier string) core.Scenario {
 			}
 			if r.Chance(1, 15) {
 				// a message the listener answers from inside the callback, depth times (echo / thru)
-				op.Data = core.Hex{0xBF, 0x70, byte(r.Range(1, 3))}
+				op.Data = core.Hex{0xBF, 0x70, byte(r.PickInt(1, 2, 3, 3, 65, 100, 127))}
+				if m.listener >= 0 && m.outOpen && r.Chance(1, 4) {
+					// BF 71: the listener stops itself from inside the callback and then sends once more
+					op.Data = core.Hex{0xBF, 0x71, 0x00}
+					m.stopped[m.listener] = true
+					m.listener = -1
+				}
 				s.Ops = append(s.Ops, op)
 				continue
 			}
@@ -196,6 +202,10 @@ func (s *PortHist) valid() bool {
 			}
 			m.inOpen = true
 			m.listener = i
+		case "send", "sendTo":
+			if len(op.Data) == 3 && op.Data[0] == 0xBF && op.Data[1] == 0x71 {
+				m.listener = -1
+			}
 		case "stop":
 			if op.Ref < 0 || op.Ref >= i || (s.Ops[op.Ref].Op != "listen" && s.Ops[op.Ref].Op != "listenTo" && s.Ops[op.Ref].Op != "relisten") {
 				return false
@@ -282,9 +292,17 @@ func (s *PortHist) Run(env *core.Env, st *core.Stats) (vs []core.Violation) {
 		lastGen := map[int]int{}
 		// echo: a listener answers the special control change BF 70 n (n > 0) with BF 70 n-1
 		// from inside the callback, on the loopback out port
+		var selfStop func()
 		echo := func(b []byte) {
 			if len(b) >= 3 && b[0] == 0xBF && b[1] == 0x70 && b[2] > 0 {
 				out.Send([]byte{0xBF, 0x70, b[2] - 1})
+			}
+			if len(b) >= 3 && b[0] == 0xBF && b[1] == 0x71 && selfStop != nil {
+				// stop from inside the callback, then one more message: it must not come back here
+				f := selfStop
+				selfStop = nil
+				f()
+				out.Send([]byte{0xBF, 0x72, 0x00})
 			}
 		}
 		fail := func(clause, key, format string, a ...any) {
@@ -441,6 +459,13 @@ func (s *PortHist) Run(env *core.Env, st *core.Stats) (vs []core.Violation) {
 				if len(op.Data) == 0 {
 					st.Probe("send-of-empty-chunk")
 				}
+				isSelfStop := len(op.Data) == 3 && op.Data[0] == 0xBF && op.Data[1] == 0x71 && m.listener >= 0 && m.outOpen
+				stoppedNow := -1
+				if isSelfStop {
+					st.Probe("listener-stops-itself-inside-the-callback")
+					stoppedNow = m.listener
+					selfStop = stops[m.listener]
+				}
 				var err error
 				if op.Op == "sendTo" {
 					st.Probe("midi.SendTo")
@@ -455,6 +480,25 @@ func (s *PortHist) Run(env *core.Env, st *core.Stats) (vs []core.Violation) {
 					err = out.Send(append([]byte{}, op.Data...))
 				}
 				got := calls[before:]
+				if isSelfStop {
+					// expected: the request itself reaches the listener, the message sent after the
+					// stop (BF 72 00) reaches nobody
+					if err != nil {
+						fail("deliver-while-listening", "error", "op %d: Send returned %v", i, err)
+					}
+					for _, g := range got {
+						if len(g.msg) >= 2 && g.msg[0] == 0xBF && g.msg[1] == 0x72 {
+							fail("no-callback-after-stop", "callback-after-stop-inside-callback", "op %d: the listener called its stop function inside the callback and sent another message afterwards: that message was delivered to listener #%d although the stop function had returned", i, g.listener)
+						}
+					}
+					if len(got) == 0 {
+						fail("deliver-while-listening", "missing", "op %d: the stop request BF 71 00 itself did not reach listener #%d", i, stoppedNow)
+					}
+					m.stopped[stoppedNow] = true
+					m.listener = -1
+					selfStop = nil
+					continue
+				}
 				switch {
 				case !m.outOpen:
 					st.Probe("send-on-closed-port")
